@@ -76,8 +76,14 @@ class Report:
                 busy.discard(other_prop)
             cache[other_prop] = sub
         n = {"discharged": 0, "violated": 0, "blind": 0, "excepted": 0}
+        # a violation that is an OPEN KNOWN FINDING of the other property is reported there (KNOWN-FINDING line), not re-raised here under another key
+        known_other = {f"{e['rule']}|{e['construct']}|{e.get('stmt', '')}" for e in load_known().get("open", []) if e.get("property") == other_prop}
+        n_known = 0
         for o in sub.obls:
             if o.rule not in rules or (only is not None and not only(o)):
+                continue
+            if o.status == "violated" and (o.key() in known_other or any(k.startswith(f"{o.rule}|{o.construct}|") and not k.split("|", 2)[2] for k in known_other)):
+                n_known += 1
                 continue
             n[o.status] = n.get(o.status, 0) + 1
             if o.status in ("violated", "blind"):
